@@ -175,19 +175,19 @@ package mail
 //@ at mail.Client.DialAndSendWithContext mail.Client.SendWithSMTPClient#1 before assert[C13:private-connection] fresh(client)
 //@ func mail.Client.sendSingleMsg
 //@   requires[C13:wf] c != nil && client != nil && !mw(client)
-//@   restores[C13:balanced] wheld, rheld
+//@   restores[C13,C17:balanced] wheld, rheld
 //@ func mail.Client.checkConn
 //@   requires[C13:wf] c != nil && (client != nil ==> !mw(client))
-//@   restores[C13:balanced] wheld, rheld
+//@   restores[C13,C17:balanced] wheld, rheld
 //@ func mail.Client.ResetWithSMTPClient
 //@   requires[C13:wf] c != nil && (client != nil ==> !mw(client))
-//@   restores[C13:balanced] wheld, rheld
+//@   restores[C13,C17:balanced] wheld, rheld
 //@ func mail.Client.SendWithSMTPClient
 //@   requires[C13:wf] c != nil && (client != nil ==> !mw(client))
-//@   restores[C13:balanced] wheld, rheld
+//@   restores[C13,C17:balanced] wheld, rheld
 //@ func mail.Client.CloseWithSMTPClient
 //@   requires[C13:wf] c != nil && (client != nil ==> !mw(client))
-//@   restores[C13:balanced] wheld, rheld
+//@   restores[C13,C17:balanced] wheld, rheld
 
 // ---------------------------------------------------------------------------
 // C07  TLS policy and credential confidentiality
